@@ -511,6 +511,7 @@ def payload(side, n):
         if (n // 4) % 40 == 3:
             tags.append((354, "4200"))
             tags.append((355, "FIX." + "x" * 4196))   # longer than one 4096-byte read
+    tags.append((5001, f"{side}#{n}"))      # unique within a walk: the oracle matches deliveries to sends by payload
     if n % 3 == 1:
         tags.append((43, "N"))
         if n % 2:
@@ -1026,15 +1027,19 @@ class Monitor:
             self.quiescent += 1
             for rx, tx in (("I", "A"), ("A", "I")):
                 got = [pl(m) for m in pair.delivered[rx]]
-                # in sending order; a send still parked in drain() (or abandoned there) has not been accepted: it may or
-                # may not have arrived
-                open_ = [pl(m) for m, ret in pair.started[tx] if not ret]
-                sent = [pl(m) for m, ret in pair.started[tx] if ret]
-                got = [g for g in got if g not in open_]
-                if got != sent:
-                    lost = len(sent) - len(got)
+                # every send that RETURNED must have been delivered, in sending order; a send still parked in drain() (or
+                # abandoned there) has not been accepted: it may or may not have arrived.  Greedy in-order matching
+                # (payloads may repeat).
+                ptr, missing = 0, 0
+                for m, ret in pair.started[tx]:
+                    if ptr < len(got) and got[ptr] == pl(m):
+                        ptr += 1
+                    elif ret:
+                        missing += 1
+                if missing or ptr != len(got):
+                    nret = sum(1 for _, ret in pair.started[tx] if ret)
                     fails.append((f"C07-lost-at-quiescence:{rx}", "at a quiescent point the receiver has not got every accepted message exactly once in order",
-                                  f"{len(sent)} messages", f"{len(got)} messages ({lost} missing)"))
+                                  f"{nret} messages", f"{len(got)} messages ({missing} missing)"))
                 ni = pair.ends[rx].conn._session.next_num_in
                 no = pair.ends[tx].conn._session.next_num_out
                 if ni != no:
